@@ -38,6 +38,8 @@ def build(case, key_int=1):
         grp = []
     key = random.PRNGKey(key_int)
     cls = case["cls"]
+    if case.get("norm") == "batch":
+        return _build_batchnorm(case, ins, outs, in_sig, out_sig, key)
     kernel = case.get("kernel", 3)
     common = dict(use_bias=case.get("bias", "auto"), equivariant=eq, conv_filters=bank_mi, kernel_size=None if eq else kernel, key=key)
     act = case.get("act", "gelu")
@@ -76,3 +78,22 @@ def extent(case):
     if "ext" in case:
         return tuple(case["ext"])
     return (4,) * D
+
+
+def _build_batchnorm(case, ins, outs, in_sig, out_sig, key):
+    """conventional model with batch norm: built with its state, switched to inference mode (running statistics, no
+    cross-batch axis needed); returned as a callable x -> (out, state)"""
+    import equinox as eqx
+    import ginjax.geometric as geom
+    import ginjax.models as models
+
+    D = case["d"]
+    act = case.get("act", "gelu")
+    kernel = case.get("kernel", 3)
+    if case["cls"] == "UNet":
+        model, state = eqx.nn.make_with_state(models.UNet)(D, ins, outs, depth=case.get("depth", 2), num_downsamples=case.get("size", 1), num_conv=case.get("num_conv", 1), use_bias=case.get("bias", "auto"), activation_f=act, equivariant=False, kernel_size=kernel, use_batch_norm=True, key=key)
+    else:
+        s = geom.Signature((((0, 0), 3),))
+        model, state = eqx.nn.make_with_state(models.ConvBlock)(D, s, s, use_bias=case.get("bias", "auto"), activation_f=act, equivariant=False, kernel_size=kernel, use_batch_norm=True, preactivation_order=case["cls"] == "ConvBlockPre", key=key)
+    inf = eqx.nn.inference_mode(model)
+    return (lambda x: inf(x, state)), in_sig, out_sig, []
